@@ -74,7 +74,7 @@ def run(rep, logics, d, tag, workers=2, full=False):
         pf = d / f'{tag}-par-{L}.json'
         pf.write_text(json.dumps({'logic': L, 'args': list(args.values())}))
         calls.append(dict(module='TableauMC', cfg=MC_CFG, env={'RULES': rules_for(rules, L, d, tag), 'PAR': pf}, workers=workers, tag=f'{tag}mc{L}',
-                          timeout=1800, xmx='3g', check=False))
+                          timeout=6000, xmx='3g', check=False))
     bad = 0
     for L, r in zip(logics, C.tlc_parallel(calls, nproc=max(1, C.NCPU // workers))):
         rep.add_tlc(r)
@@ -133,7 +133,7 @@ def run_modal(rep, logics, d, tag, maxw=3, workers=2, full=False):
         pf = d / f'{tag}-mpar-{L}.json'
         pf.write_text(json.dumps({'logic': L, 'args': list(args.values()), 'maxw': maxw}))
         calls.append(dict(module='TableauModalMC', cfg=MODAL_CFG, env={'RULES': rules_for(rules, L, d, tag + 'm'), 'PAR': pf}, workers=workers,
-                          tag=f'{tag}mm{L}', timeout=2400, xmx='3g', check=False))
+                          tag=f'{tag}mm{L}', timeout=6000, xmx='3g', check=False))
     bad = 0
     for L, r in zip(logics, C.tlc_parallel(calls, nproc=max(1, C.NCPU // workers))):
         rep.add_tlc(r)
@@ -219,7 +219,7 @@ def run_fo(rep, logics, d, tag, workers=2, full=False):
         pf = d / f'{tag}-fopar-{L}.json'
         pf.write_text(json.dumps({'logic': L, 'args': [dict(a, expect=expect[f'{name}/{L}']) for name, a in args_of(L).items()]}))
         calls.append(dict(module='TableauFOMC', cfg=FO_CFG, env={'RULES': rules_for(rules, L, d, tag + 'fo'), 'PAR': pf}, workers=workers, tag=f'{tag}fo{L}',
-                          timeout=2400, xmx='3g', check=False))
+                          timeout=6000, xmx='3g', check=False))
     bad = 0
     for L, r in zip(logics, C.tlc_parallel(calls, nproc=max(1, C.NCPU // workers))):
         rep.add_tlc(r)
